@@ -508,6 +508,9 @@ Definition u_dec (s : ustate) (x : list metadata * ures * ustate) : Prop :=
   | UEnd _ => (nu (u_lex s') <= nu (u_lex s))%nat
   end.
 
+Definition u_alloc (lo : lopts) (s : ustate) (x : list metadata * ures * ustate) : Prop :=
+  let '(_, _, s') := x in allocs_ext (step_alloc_ok lo) (u_lex s) (u_lex s').
+
 Section UNext.
 Variable lo : lopts.
 Variable ds : doracle.
@@ -516,30 +519,36 @@ Variable F : Prop.
 
 Lemma u_next_post : forall fuel s mds,
   F \/ (lex_bounded lo ds /\ (nu (u_lex s) < fuel)%nat) ->
-  post (fun x => F \/ u_dec s x) F (u_next lo ds ro fuel s mds).
+  post (fun x => (F \/ u_dec s x) /\ u_alloc lo s x) F (u_next lo ds ro fuel s mds).
 Proof.
   induction fuel as [|f IH]; intros s mds H.
   { cbn. destruct H as [H|[_ H]]; [exact H|lia]. }
   cbn [u_next].
   pose proof (lex_next_post lo ds F (S f) (u_reccap s) (u_lex s) [] H) as P.
-  destruct (lex_next lo ds (S f) (u_reccap s) (u_lex s) []) as [[[evs res] l']| | | |];
+  destruct (lex_next lo ds (S f) (u_reccap s) (u_lex s) []) as [[[evs res] l']| | | |] eqn:El;
     cbn [post] in P |- *; try exact P; try exact I.
+  apply lex_next_allocs in El.
   destruct res as [ev|e].
-  2:{ cbn [post]. destruct P as [P|P]; [left; exact P|right; cbn in P |- *; exact P]. }
+  2:{ cbn [post]. split; [|exact El]. destruct P as [P|P]; [left; exact P|right; cbn in P |- *; exact P]. }
   assert (K : F \/ (lex_bounded lo ds /\ (nu l' < f)%nat /\ (nu l' < nu (u_lex s))%nat)).
   { destruct P as [P|P]; [left; exact P|]. destruct H as [H|[H1 H2]]; [left; exact H|].
     right. cbn in P. repeat split; [exact H1|lia|lia]. }
   assert (R : forall s2 mds2, u_lex s2 = l' ->
-     post (fun x => F \/ u_dec s x) F (u_next lo ds ro f s2 mds2)).
+     post (fun x => (F \/ u_dec s x) /\ u_alloc lo s x) F (u_next lo ds ro f s2 mds2)).
   { intros s2 mds2 E. eapply post_weaken; [apply IH| |auto].
     - rewrite E. destruct K as [K|[K1 [K2 K3]]]; [left; exact K|right; split; assumption].
-    - intros [[m r] s3] [HF|D]; [left; exact HF|].
-      destruct K as [K|[K1 [K2 K3]]]; [left; exact K|right].
-      unfold u_dec in *. rewrite E in D. destruct r; try lia; contradiction. }
-  assert (D : forall m r s2, u_lex s2 = l' -> (forall x, r <> UMeta x) -> F \/ u_dec s (m, r, s2)).
-  { intros m r s2 E Hr. destruct K as [K|[K1 [K2 K3]]]; [left; exact K|right].
+    - intros [[m r] s3] [D A]. split.
+      + destruct D as [HF|D]; [left; exact HF|].
+        destruct K as [K|[K1 [K2 K3]]]; [left; exact K|right].
+        unfold u_dec in *. rewrite E in D. destruct r; try lia; contradiction.
+      + unfold u_alloc in *. rewrite E in A. eapply allocs_ext_trans; eassumption. }
+  assert (D : forall m r s2, u_lex s2 = l' -> (forall x, r <> UMeta x) ->
+     (F \/ u_dec s (m, r, s2)) /\ u_alloc lo s (m, r, s2)).
+  { intros m r s2 E Hr. split; [|unfold u_alloc; rewrite E; exact El].
+    destruct K as [K|[K1 [K2 K3]]]; [left; exact K|right].
     unfold u_dec. rewrite E. destruct r; try lia. exact (Hr m0 eq_refl). }
-  destruct ev as [op body| |a]; [|cbn [post]; (apply D; [reflexivity|discriminate])|cbn [post]; (apply D; [reflexivity|discriminate])].
+  destruct ev as [op body| |a];
+    [|cbn [post]; (apply D; [reflexivity|discriminate])|cbn [post]; (apply D; [reflexivity|discriminate])].
   cbv zeta.
   destruct (Byte.eqb op OpSchema).
   { pose proof (parse_schema_total body) as T. destruct (parse_schema body); cbn in T; try contradiction.
@@ -580,7 +589,7 @@ Proof.
   pose proof (u_next_post scan_lopts ds ro F fuel s [] H') as P.
   destruct (u_next scan_lopts ds ro fuel s []) as [[[md r] s']| | | |]; cbn [post] in P |- *; try exact P; try exact I.
   destruct r as [t|m|e]; [| |exact I]; apply IH;
-    (destruct P as [P|P]; [left; exact P|]; destruct H as [H|[H1 [H2 H3]]]; [left; exact H|right];
+    (destruct P as [[P|P] _]; [left; exact P|]; destruct H as [H|[H1 [H2 H3]]]; [left; exact H|right];
      cbn in P; repeat split; [exact H1|lia|lia]).
 Qed.
 
@@ -761,19 +770,65 @@ Definition sumn (l : list nat) : nat := fold_right Nat.add O l.
 Definition index_load (cis : list chunkindex) : nat := sumn (map chunk_msgs cis).
 Definition pot (s : istate) : nat := (length (i_queue s) + index_load (i_cis s))%nat.
 
+(* allocation requests of the indexed iterator: the record buffer (chunk length, checked against the file
+   size before it is requested) and the decompressed chunk (checked against MaxInt32) *)
+Definition i_alloc_ok (n : N) : Prop := n < max_int32 \/ n <= fs_size f.
+Definition i_allocs_ext (s s' : istate) : Prop :=
+  exists l, i_allocs s' = l ++ i_allocs s /\ Forall i_alloc_ok l.
+Lemma i_allocs_ext_refl s : i_allocs_ext s s.
+Proof. exists []. split; [reflexivity|constructor]. Qed.
+Lemma i_allocs_ext_trans a b c : i_allocs_ext a b -> i_allocs_ext b c -> i_allocs_ext a c.
+Proof.
+  intros [l1 [E1 F1]] [l2 [E2 F2]]. exists (l2 ++ l1). split.
+  - rewrite E2, E1. apply app_assoc.
+  - apply Forall_app; auto.
+Qed.
+
+Lemma chunk_plain_ok ci k plain : chunk_plain ci = Ok (k, plain) ->
+  k_usize k < max_int32 /\ ci_length ci <= fs_size f /\ blen plain = k_usize k.
+Proof.
+  unfold chunk_plain. cbv zeta.
+  destruct (seek_ok _ _); cbn [bind]; try discriminate.
+  destruct (ci_length ci <? 9); [discriminate|].
+  destruct (_ - _ <? _) eqn:E1; [discriminate|].
+  destruct (rd_full _ _) as [[rec e] r1]. destruct e as [e|]; [discriminate|].
+  destruct (parse_chunk _) as [k0| | | |]; cbn [bind]; try discriminate.
+  destruct (max_int32 <=? k_usize k0) eqn:E2; [discriminate|].
+  destruct (bytes_eqb (k_comp k0) []).
+  { destruct (_ =? _) eqn:E3; [|discriminate]. cbn [bind]. intros H; inversion H; subst. lia. }
+  destruct (_ || _); [|discriminate].
+  destruct (dall _ _ _) as [p|]; [|discriminate].
+  destruct (_ =? _) eqn:E3; [|discriminate]. cbn [bind]. intros H; inversion H; subst. lia.
+Qed.
+
+Lemma load_chunk_i_allocs ci s s' : load_chunk_i dall ro sm f ci s = Ok s' -> i_allocs_ext s s'.
+Proof.
+  rewrite load_chunk_i_eq.
+  destruct (chunk_plain ci) as [[k plain]| | | |] eqn:Ep; cbn [bind]; try discriminate. cbv zeta.
+  apply chunk_plain_ok in Ep. destruct Ep as [P1 [P2 _]].
+  destruct (walk _ _ _ _ _ _ _) as [new| | | |]; cbn [bind]; try discriminate.
+  intros H; inversion H; subst s'; clear H. unfold i_allocs_ext. isimpl.
+  unfold i_grow. destruct (_ <? _); isimpl.
+  - exists [k_usize k; ci_length ci]. split; [reflexivity|].
+    constructor; [left; assumption|constructor; [right; assumption|constructor]].
+  - exists [k_usize k]. split; [reflexivity|]. constructor; [left; assumption|constructor].
+Qed.
+
 Definition i_dec (s : istate) (x : ires * istate) : Prop :=
   let '(r, s') := x in
   (length (i_cis s') <= length (i_cis s))%nat /\
-  match r with IMsg _ => (pot s' < pot s)%nat | IEnd _ => (pot s' <= pot s)%nat end.
+  match r with IMsg _ => (pot s' < pot s)%nat | IEnd _ => (pot s' <= pot s)%nat end /\
+  i_allocs_ext s s'.
 
 Lemma yield_dec e q s : i_queue s = e :: q -> i_dec s (yield sm e s).
 Proof.
   intros Eq. unfold yield.
-  assert (G0 : forall x, i_dec s (IEnd x, s)) by (intros; cbn; lia).
+  assert (G0 : forall x, i_dec s (IEnd x, s)) by (intros; cbn; repeat split; try lia; apply i_allocs_ext_refl).
   destruct (nth_error _ _) as [[n buf]|]; [|apply G0].
   destruct (parse_message _) as [m| | | |]; try apply G0.
   assert (G1 : forall r, i_dec s (r, s <| i_slots := slot_dec (i_slots s) (en_slot e) |> <| i_queue := tl (i_queue s) |>)).
-  { intros r. unfold i_dec, pot. isimpl. rewrite Eq. cbn [tl length]. split; [lia|]. destruct r; lia. }
+  { intros r. unfold i_dec, pot. isimpl. rewrite Eq. cbn [tl length]. split; [lia|].
+    split; [destruct r; lia|]. exists []. split; [reflexivity|constructor]. }
   destruct (tab_get _ (sm_channels sm)) as [c|]; [|apply G1].
   destruct (tab_get _ (sm_schemas sm)); [apply G1|]. destruct (_ =? 0); apply G1.
 Qed.
@@ -785,7 +840,7 @@ Proof.
   induction fuel as [|fu IH]; intros s H.
   { cbn. destruct H as [H|H]; [exact H|lia]. }
   cbn [i_next].
-  assert (G0 : forall x, i_dec s (IEnd x, s)) by (intros; cbn; lia).
+  assert (G0 : forall x, i_dec s (IEnd x, s)) by (intros; cbn; repeat split; try lia; apply i_allocs_ext_refl).
   assert (L : forall ci rest, i_cis s = ci :: rest ->
      post (i_dec s) F
        match load_chunk_i dall ro sm f ci s with
@@ -795,11 +850,13 @@ Proof.
        end).
   { intros ci rest Ec. pose proof (load_chunk_i_okerr ci s) as T.
     destruct (load_chunk_i dall ro sm f ci s) as [s'| | | |] eqn:El; cbn in T; try contradiction; [|apply G0].
+    pose proof (load_chunk_i_allocs _ _ _ El) as Al.
     apply load_chunk_i_queue in El.
     eapply post_weaken; [apply IH| |auto].
     - isimpl. rewrite Ec in H. cbn [length] in H. destruct H as [H|H]; [left; exact H|right; lia].
     - intros [r s2]. unfold i_dec, pot. isimpl. rewrite Ec, El. unfold index_load, sumn. cbn [map fold_right length].
-      intros [D1 D2]. split; [lia|]. destruct r; lia. }
+      intros [D1 [D2 D3]]. split; [lia|]. split; [destruct r; lia|].
+      eapply i_allocs_ext_trans; [exact Al|]. exact D3. }
   destruct (i_queue s) as [|e q] eqn:Eq.
   - destruct (i_cis s) as [|ci rest] eqn:Ec; [apply G0|]. apply L. reflexivity.
   - destruct (i_cis s) as [|ci rest] eqn:Ec.
@@ -820,7 +877,7 @@ Proof.
   pose proof (i_next_post F fuel s H') as P.
   destruct (i_next dall ro sm f fuel s) as [[r s']| | | |]; cbn [post] in P |- *; try exact P; try exact I.
   destruct r as [t|e]; [|exact I].
-  apply IH. destruct H as [H|[H1 H2]]; [left; exact H|right]. cbn in P. lia.
+  apply IH. destruct H as [H|[H1 H2]]; [left; exact H|right]. destruct P as [P1 [P2 _]]. lia.
 Qed.
 
 End Idx.
@@ -856,4 +913,461 @@ Proof.
     + destruct H as [H|[_ H]]; [left; exact H|right]. specialize (H r sm Ed Es).
       unfold pot. cbn [i_cis i_queue length]. lia.
     + intros [[ms e] st] _. exact I.
+Qed.
+
+(* ====================================================================================== *)
+(* Part 8: the statements                                                                  *)
+(* ====================================================================================== *)
+
+Definition never_pe {A} (x : outcome A) : Prop := forall site, x <> Panic site /\ x <> Exit site.
+
+Lemma post_never_pe {A} (Q : A -> Prop) (x : outcome A) : post Q True x -> never_pe x.
+Proof. intros H site. apply no_pe_sites. eapply post_no_pe; exact H. Qed.
+Lemma post_no_crash {A} (Q : A -> Prop) (x : outcome A) : post Q False x -> no_crash x = true.
+Proof. intros H. apply okerr_no_crash. eapply post_okerr; exact H. Qed.
+Lemma post_ok {A} (Q : A -> Prop) F (x : outcome A) a : post Q F x -> x = Ok a -> Q a.
+Proof. intros H E. rewrite E in H. exact H. Qed.
+
+(* ---------- 1. entry points ---------- *)
+Theorem new_reader_total : forall ds f sk, no_crash (new_reader ds f sk) = true.
+Proof. intros. apply okerr_no_crash, new_reader_okerr. Qed.
+
+Theorem get_metadata_total : forall ds f off, no_crash (get_metadata ds f off) = true.
+Proof. intros. apply okerr_no_crash, get_metadata_okerr. Qed.
+
+Theorem get_attachment_total : forall f off, no_crash (get_attachment f off) = true.
+Proof. intros. apply okerr_no_crash, get_attachment_okerr. Qed.
+
+Theorem parse_summary_no_panic : forall ds f ro im, never_pe (parse_summary ds f ro im).
+Proof. intros. eapply post_never_pe, parse_summary_post. left; exact I. Qed.
+
+Theorem parse_summary_total : forall ds, oracle9 ds ->
+  forall f ro im, no_crash (parse_summary ds f ro im) = true.
+Proof. intros ds H f ro im. eapply post_no_crash, parse_summary_post. right; exact H. Qed.
+
+(* whatever the oracle does, a parsed summary holds at most size+1 chunk indexes *)
+Theorem parse_summary_chunk_indexes : forall ds f ro im sm,
+  parse_summary ds f ro im = Ok sm -> (length (sm_cis sm) <= S (N.to_nat (fs_size f)))%nat.
+Proof.
+  intros ds f ro im sm E.
+  exact (post_ok _ _ _ _ (parse_summary_post ds True f ro im (or_introl I)) E).
+Qed.
+
+Theorem info_no_panic : forall ds f, never_pe (info ds f).
+Proof. intros. apply parse_summary_no_panic. Qed.
+Theorem info_total : forall ds, oracle9 ds -> forall f, no_crash (info ds f) = true.
+Proof. intros ds H f. apply parse_summary_total; exact H. Qed.
+
+Theorem messages_dispatch_no_panic : forall ds f os, never_pe (messages_dispatch ds f os).
+Proof. intros. eapply post_never_pe, messages_dispatch_post. left; exact I. Qed.
+Theorem messages_dispatch_total : forall ds, oracle9 ds ->
+  forall f os, no_crash (messages_dispatch ds f os) = true.
+Proof. intros ds H f os. eapply post_no_crash, messages_dispatch_post. right; exact H. Qed.
+
+(* ---------- 3. step level, from ANY state ---------- *)
+Theorem u_next_no_panic : forall lo ds ro fuel s mds, never_pe (u_next lo ds ro fuel s mds).
+Proof. intros. eapply post_never_pe, u_next_post. left; exact I. Qed.
+
+Theorem u_next_total : forall lo ds ro fuel s mds,
+  lex_bounded lo ds -> (nu (u_lex s) < fuel)%nat ->
+  no_crash (u_next lo ds ro fuel s mds) = true /\
+  (forall x, u_next lo ds ro fuel s mds = Ok x -> u_dec s x).
+Proof.
+  intros lo ds ro fuel s mds H1 H2.
+  assert (P : post (fun x => (False \/ u_dec s x) /\ u_alloc lo s x) False (u_next lo ds ro fuel s mds)).
+  { apply u_next_post. right. split; assumption. }
+  split; [eapply post_no_crash; exact P|].
+  intros x E. destruct (post_ok _ _ _ _ P E) as [[[]|D] _]. exact D.
+Qed.
+
+Theorem u_next_allocs : forall lo ds ro fuel s mds mds' r s',
+  u_next lo ds ro fuel s mds = Ok (mds', r, s') ->
+  allocs_ext (step_alloc_ok lo) (u_lex s) (u_lex s').
+Proof.
+  intros lo ds ro fuel s mds mds' r s' E.
+  exact (proj2 (post_ok _ _ _ _ (u_next_post lo ds ro True fuel s mds (or_introl I)) E)).
+Qed.
+
+Theorem scan_all_no_panic : forall ds fuel n ro s acc mds, never_pe (scan_all ds fuel n ro s acc mds).
+Proof. intros. eapply post_never_pe, scan_all_post. left; exact I. Qed.
+
+Theorem scan_all_total : forall ds fuel n ro s acc mds,
+  oracle9 ds -> (nu (u_lex s) < fuel)%nat -> (nu (u_lex s) < n)%nat ->
+  no_crash (scan_all ds fuel n ro s acc mds) = true.
+Proof. intros. eapply post_no_crash, scan_all_post. right. repeat split; assumption. Qed.
+
+Theorem walk_no_panic : forall ro sm fuel buf off slot acc, never_pe (walk ro sm fuel buf off slot acc).
+Proof. intros. eapply post_never_pe, walk_post. left; exact I. Qed.
+Theorem walk_total : forall ro sm fuel buf off slot acc,
+  (length buf - N.to_nat off < fuel)%nat -> no_crash (walk ro sm fuel buf off slot acc) = true.
+Proof. intros. eapply post_no_crash, walk_post. right; assumption. Qed.
+
+Theorem load_chunk_i_total : forall dall ro sm f ci s, no_crash (load_chunk_i dall ro sm f ci s) = true.
+Proof. intros. apply okerr_no_crash, load_chunk_i_okerr. Qed.
+
+Theorem i_next_no_panic : forall dall ro sm f fuel s, never_pe (i_next dall ro sm f fuel s).
+Proof. intros. eapply post_never_pe, i_next_post. left; exact I. Qed.
+
+Theorem i_next_total : forall dall ro sm f fuel s,
+  (length (i_cis s) < fuel)%nat -> no_crash (i_next dall ro sm f fuel s) = true.
+Proof. intros. eapply post_no_crash, i_next_post. right; assumption. Qed.
+
+(* every successful step: no new chunk indexes, the potential (queued + still indexed messages) drops with
+   every message, the allocation log grows by admissible requests only *)
+Theorem i_next_progress : forall dall ro sm f fuel s x,
+  i_next dall ro sm f fuel s = Ok x -> i_dec dall ro sm f s x.
+Proof.
+  intros dall ro sm f fuel s x E.
+  exact (post_ok _ _ _ _ (i_next_post dall ro sm f True fuel s (or_introl I)) E).
+Qed.
+
+Theorem indexed_all_no_panic : forall dall fuel n ro sm f s acc st,
+  never_pe (indexed_all dall fuel n ro sm f s acc st).
+Proof. intros. eapply post_never_pe, indexed_all_post. left; exact I. Qed.
+
+Theorem indexed_all_total : forall dall fuel n ro sm f s acc st,
+  (length (i_cis s) < fuel)%nat -> (pot dall ro sm f s < n)%nat ->
+  no_crash (indexed_all dall fuel n ro sm f s acc st) = true.
+Proof. intros. eapply post_no_crash, indexed_all_post. right; split; assumption. Qed.
+
+(* ---------- 2. a complete read ---------- *)
+Theorem read_messages_no_panic : forall ds dall f os, never_pe (read_messages ds dall f os).
+Proof. intros. eapply post_never_pe, read_messages_post. left; exact I. Qed.
+
+Theorem read_messages_total : forall ds dall f os,
+  oracle9 ds -> index_load_ok ds dall f os ->
+  no_crash (read_messages ds dall f os) = true.
+Proof. intros. eapply post_no_crash, read_messages_post. right; split; assumption. Qed.
+
+(* the sequential read needs the bound on the streaming decoder only *)
+Theorem read_messages_scan_total : forall ds dall f os,
+  oracle9 ds -> (forall r, messages_dispatch ds f os <> Ok (MIndexed, r)) ->
+  no_crash (read_messages ds dall f os) = true.
+Proof.
+  intros ds dall f os H1 H2. apply read_messages_total; [exact H1|].
+  intros r sm Hd. destruct (H2 r Hd).
+Qed.
+
+(* the statements that are FALSE of the model as it stands (see ex_bomb_info, ex_zbomb_read, ex_dup_read) *)
+Definition info_total_full_statement : Prop :=
+  forall ds f, no_crash (info ds f) = true.
+Definition read_messages_total_full_statement : Prop :=
+  forall ds dall f os, no_crash (read_messages ds dall f os) = true.
+
+(* ---------- 4. allocation ceilings ---------- *)
+Theorem new_reader_alloc_ceiling : forall ds f sk h l,
+  new_reader ds f sk = Ok (h, l) -> Forall (fun n => n < max_int32) (lx_allocs l).
+Proof.
+  intros ds f sk h l. unfold new_reader.
+  destruct (new_lexer reader_lopts (fs_stream f 0 sk)) as [l0| | | |] eqn:En; cbn [bind]; try discriminate.
+  apply new_lexer_allocs in En.
+  destruct (lex_next reader_lopts ds _ 0 l0 []) as [[[evs res] l']| | | |] eqn:El; try discriminate.
+  apply lex_next_allocs in El.
+  destruct res as [ev|e]; [|discriminate].
+  destruct ev as [op body| |a]; try discriminate.
+  destruct (Byte.eqb op OpHeader); [|discriminate].
+  destruct (parse_header body); cbn [bind]; try discriminate.
+  intros H; inversion H; subst.
+  eapply Forall_impl; [|eapply allocs_ext_forall; [exact El|rewrite En; constructor]].
+  intros n [Hn _]. exact Hn.
+Qed.
+
+Theorem u_next_alloc_ceiling : forall lo ds ro fuel s mds mds' r s',
+  Forall (fun n => n < max_int32) (lx_allocs (u_lex s)) ->
+  u_next lo ds ro fuel s mds = Ok (mds', r, s') ->
+  Forall (fun n => n < max_int32) (lx_allocs (u_lex s')).
+Proof.
+  intros lo ds ro fuel s mds mds' r s' Hs E. apply u_next_allocs in E.
+  destruct E as [l [E Fl]]. rewrite E. apply Forall_app. split; [|exact Hs].
+  eapply Forall_impl; [|exact Fl]. intros n [Hn _]. exact Hn.
+Qed.
+
+Theorem load_chunk_i_alloc_ceiling : forall dall ro sm f ci s s',
+  load_chunk_i dall ro sm f ci s = Ok s' ->
+  exists l, i_allocs s' = l ++ i_allocs s /\ Forall (fun n => n < max_int32 \/ n <= fs_size f) l.
+Proof. intros. eapply load_chunk_i_allocs; eassumption. Qed.
+
+Theorem i_next_alloc_ceiling : forall dall ro sm f fuel s r s',
+  Forall (fun n => n < max_int32 \/ n <= fs_size f) (i_allocs s) ->
+  i_next dall ro sm f fuel s = Ok (r, s') ->
+  Forall (fun n => n < max_int32 \/ n <= fs_size f) (i_allocs s').
+Proof.
+  intros dall ro sm f fuel s r s' Hs E. apply i_next_progress in E.
+  destruct E as [_ [_ [l [E Fl]]]]. rewrite E. apply Forall_app. split; [exact Fl|exact Hs].
+Qed.
+
+(* ---------- 2b. a size-based sufficient condition for the indexed read ---------- *)
+(* a selected message costs at least 31 bytes of decompressed chunk (9 bytes of record head, 22 of body) *)
+Lemma parse_message_ok_len b m : parse_message b = Ok m -> (22 <= length b)%nat.
+Proof.
+  unfold parse_message.
+  destruct (get_u16 b 0) as [[ch o1]| | | |] eqn:E1; cbn [bind]; try discriminate.
+  destruct (get_u32 b o1) as [[sq o2]| | | |] eqn:E2; cbn [bind]; try discriminate.
+  destruct (get_u64 b o2) as [[lt o3]| | | |] eqn:E3; cbn [bind]; try discriminate.
+  destruct (get_u64 b o3) as [[pt o4]| | | |] eqn:E4; cbn [bind]; try discriminate.
+  intros _. apply get_u_ok in E1, E2, E3, E4. lia.
+Qed.
+
+Section IdxBytes.
+Variable dall : dalloracle.
+Variable ro : ropts.
+Variable sm : summ.
+Variable f : fsrc.
+
+Lemma walk_count : forall fuel buf off slot acc l,
+  walk ro sm fuel buf off slot acc = Ok l ->
+  (31 * length l + N.to_nat (N.min off (blen buf)) <= 31 * length acc + length buf)%nat.
+Proof.
+  induction fuel as [|fu IH]; intros buf off slot acc l H; [discriminate|].
+  cbn [walk] in H. cbv zeta in H.
+  destruct (blen buf <=? off) eqn:E0; [inversion H; subst; unfold blen in *; lia|].
+  destruct (blen buf <? off + 9) eqn:E1; [discriminate|].
+  destruct (two64 <=? _) eqn:E2; [discriminate|].
+  match type of H with context[if blen buf <? ?x then Err EOther else _] => destruct (blen buf <? x) eqn:E3; [discriminate|] end.
+  destruct (Byte.eqb _ OpMessage).
+  - destruct (parse_message _) as [m| | | |] eqn:Ep; cbn [bind] in H; try discriminate.
+    apply parse_message_ok_len in Ep. rewrite take_length in Ep.
+    apply IH in H.
+    assert (Ha : (length (if match tab_get (m_chan m) (sm_channels sm) with Some _ => in_window ro (m_log m) | None => false end
+                          then acc ++ [{| en_ts := m_log m; en_off := off; en_slot := slot |}] else acc) <= length acc + 1)%nat).
+    { destruct (match tab_get _ _ with Some _ => _ | None => _ end); rewrite ?app_length; cbn [length]; lia. }
+    unfold blen in *. lia.
+  - apply IH in H. unfold blen in *. lia.
+Qed.
+
+(* decompressed size of the chunk a chunk index points to (0 when loading it fails) *)
+Definition chunk_usize (ci : chunkindex) : nat :=
+  match chunk_plain dall f ci with Ok (_, plain) => length plain | _ => O end.
+Definition index_bytes (cis : list chunkindex) : nat := sumn (map chunk_usize cis).
+
+Lemma chunk_msgs_le ci : (31 * chunk_msgs dall ro sm f ci <= chunk_usize ci)%nat.
+Proof.
+  unfold chunk_msgs, chunk_usize.
+  destruct (chunk_plain dall f ci) as [[k plain]| | | |]; try lia.
+  destruct (walk ro sm (S (length plain)) plain 0 O []) as [new| | | |] eqn:W; try lia.
+  apply walk_count in W. cbn [length] in W. lia.
+Qed.
+
+Lemma index_load_le cis : (31 * index_load dall ro sm f cis <= index_bytes cis)%nat.
+Proof.
+  unfold index_load, index_bytes, sumn. induction cis as [|ci r IH]; cbn [map fold_right]; [lia|].
+  pose proof (chunk_msgs_le ci). lia.
+Qed.
+
+End IdxBytes.
+
+(* the decompressed sizes of the indexed chunks (a chunk counts once per index pointing to it) add up to at
+   most 31 times the file size *)
+Definition index_bytes_ok (ds : doracle) (dall : dalloracle) (f : fsrc) (os : list ropt) : Prop :=
+  forall r sm, messages_dispatch ds f os = Ok (MIndexed, r) -> parse_summary ds f r false = Ok sm ->
+    (index_bytes dall f (sm_cis sm) <= 31 * N.to_nat (fs_size f))%nat.
+
+Theorem read_messages_total_bytes : forall ds dall f os,
+  oracle9 ds -> index_bytes_ok ds dall f os ->
+  no_crash (read_messages ds dall f os) = true.
+Proof.
+  intros ds dall f os H1 H2. apply read_messages_total; [exact H1|].
+  intros r sm Hd Hs. specialize (H2 r sm Hd Hs).
+  pose proof (index_load_le dall r sm f (sm_cis sm)). lia.
+Qed.
+
+(* ====================================================================================== *)
+(* Part 9: examples - non-vacuity, hostile inputs, and the inputs on which the fuel runs out *)
+(* ====================================================================================== *)
+
+Definition ex_mem (b : bytes) : fsrc := {| fs_data := b; fs_fail := None |}.
+Definition ex_zstd : bytes := [x7a; x73; x74; x64].
+Definition ex_chunk_body (usize : N) (comp recs : bytes) : bytes :=
+  u64 0 ++ u64 0 ++ u64 usize ++ u32 0 ++ pstr comp ++ u64 (blen recs) ++ recs.
+Definition ex_footer (summary_start : N) : bytes := frame OpFooter (u64 summary_start ++ u64 0 ++ u32 0).
+Fixpoint ex_rep {A} (n : nat) (l : list A) : list A := match n with O => [] | S k => l ++ ex_rep k l end.
+Definition ex_no_dall : dalloracle := fun _ _ _ => None.
+Definition ex_header : bytes := frame OpHeader (enc_header {| h_profile := []; h_library := [] |}).
+Definition ex_chan : bytes :=
+  frame OpChannel (enc_channel {| c_id := 1; c_schema := 0; c_topic := [x74]; c_menc := []; c_meta := [] |}).
+Definition ex_cix (off len : N) : bytes := frame OpChunkIndex (enc_chunkindex
+  {| ci_start := 0; ci_end := 0; ci_offset := off; ci_length := len; ci_mioffsets := []; ci_milength := 0;
+     ci_comp := []; ci_csize := 0; ci_usize := 0 |}).
+Definition ex_message : bytes :=
+  frame OpMessage (enc_message {| m_chan := 1; m_seq := 0; m_log := 0; m_pub := 0; m_data := [] |}).
+(* data section `pre`, then the summary section, the footer pointing at it, the closing magic *)
+Definition ex_with_summary (pre summary : bytes) : bytes := pre ++ summary ++ ex_footer (blen pre) ++ magic.
+(* an uncompressed chunk of a channel record and m messages, indexed c times *)
+Definition ex_plain_chunk (m : nat) : bytes :=
+  let recs := ex_chan ++ ex_rep m ex_message in frame OpChunk (ex_chunk_body (blen recs) [] recs).
+Definition ex_dup_file (m c : nat) : bytes :=
+  ex_with_summary (magic ++ ex_header ++ ex_plain_chunk m) (ex_chan ++ ex_rep c (ex_cix 25 (blen (ex_plain_chunk m)))).
+Definition ex_strip (x : outcome readres) : outcome (option mode * nat * err) :=
+  match x with
+  | Ok r => Ok (rr_mode r, length (rr_msgs r), rr_end r)
+  | Err e => Err e | Panic p => Panic p | Exit p => Exit p | OutOfFuel => OutOfFuel
+  end.
+
+(* ----- the hypotheses are satisfiable ----- *)
+Example ex_oracle9_id : oracle9 id_oracle.
+Proof. intros c a e. cbn. lia. Qed.
+(* a decoder that triples its input *)
+Example ex_oracle9_expanding : oracle9 (fun _ a e => (a ++ a ++ a, e)).
+Proof. intros c a e. cbn [fst]. rewrite !app_length. lia. Qed.
+
+(* a well-formed indexed file: 3 messages, one chunk index; and the same chunk indexed 4 times (12 messages
+   from a file of 548 bytes): index_load_ok holds, the read succeeds *)
+Example ex_index_load_ok_1 : index_load_ok id_oracle ex_no_dall (ex_mem (ex_dup_file 3 1)) [].
+Proof.
+  intros r sm Hd Hs. vm_compute in Hd. inversion Hd; subst r; clear Hd.
+  vm_compute in Hs. inversion Hs; subst sm; clear Hs.
+  apply Nat.leb_le. vm_compute. reflexivity.
+Qed.
+Example ex_index_load_ok_4 : index_load_ok id_oracle ex_no_dall (ex_mem (ex_dup_file 3 4)) [].
+Proof.
+  intros r sm Hd Hs. vm_compute in Hd. inversion Hd; subst r; clear Hd.
+  vm_compute in Hs. inversion Hs; subst sm; clear Hs.
+  apply Nat.leb_le. vm_compute. reflexivity.
+Qed.
+Example ex_read_ok :
+  ex_strip (read_messages id_oracle ex_no_dall (ex_mem (ex_dup_file 3 1)) []) = Ok (Some MIndexed, 3%nat, EEOF) /\
+  ex_strip (read_messages id_oracle ex_no_dall (ex_mem (ex_dup_file 3 4)) []) = Ok (Some MIndexed, 12%nat, EEOF) /\
+  ex_strip (read_messages id_oracle ex_no_dall (ex_mem (ex_dup_file 3 4)) [OUsingIndex false]) = Ok (Some MScan, 3%nat, EEOF).
+Proof. vm_compute. repeat split; reflexivity. Qed.
+
+Example ex_index_bytes_ok_4 : index_bytes_ok id_oracle ex_no_dall (ex_mem (ex_dup_file 3 4)) [].
+Proof.
+  intros r sm Hd Hs. vm_compute in Hd. inversion Hd; subst r; clear Hd.
+  vm_compute in Hs. inversion Hs; subst sm; clear Hs.
+  apply Nat.leb_le. vm_compute. reflexivity.
+Qed.
+Example ex_scan_dispatch : forall r,
+  messages_dispatch id_oracle (ex_mem (ex_dup_file 3 4)) [OUsingIndex false] <> Ok (MIndexed, r).
+Proof. intros r H. vm_compute in H. discriminate H. Qed.
+
+(* step level: the lexer state NewReader leaves behind satisfies the fuel hypotheses of u_next_total and
+   scan_all_total with the fuel read_messages passes; the initial state of the indexed iterator satisfies
+   those of i_next_total and indexed_all_total *)
+Example ex_step_hyps :
+  match new_reader id_oracle (ex_mem (ex_dup_file 3 1)) true with
+  | Ok (_, l) => Nat.ltb (nu l) 329 && Nat.ltb 0 (nu l)
+  | _ => false
+  end = true /\
+  fs_size (ex_mem (ex_dup_file 3 1)) = 329 /\
+  lex_bounded scan_lopts id_oracle /\
+  match info id_oracle (ex_mem (ex_dup_file 3 1)) with
+  | Ok sm => Nat.ltb (length (sm_cis sm)) 330 && Nat.eqb (length (sm_cis sm)) 1 &&
+             Nat.eqb (index_load ex_no_dall (finalize default_ropts) sm (ex_mem (ex_dup_file 3 1)) (sm_cis sm)) 3
+  | _ => false
+  end = true.
+Proof.
+  split; [vm_compute; reflexivity|]. split; [vm_compute; reflexivity|].
+  split; [right; exact ex_oracle9_id|]. vm_compute. reflexivity.
+Qed.
+
+(* allocation logs of real steps: NewReader (header body), the first NextInto of the sequential read (channel
+   and message bodies; the chunk is streamed, not buffered), the first step of the indexed read (record buffer
+   of the chunk length 168, decompressed chunk 119) *)
+Example ex_alloc_logs :
+  let f := ex_mem (ex_dup_file 3 1) in
+  let ro := finalize default_ropts in
+  match new_reader id_oracle f true with
+  | Ok (_, l) =>
+    (lx_allocs l,
+     match u_next scan_lopts id_oracle ro 700 {| u_lex := l; u_schemas := []; u_channels := []; u_reccap := 0 |} [] with
+     | Ok (_, UMsg _, s') => lx_allocs (u_lex s') | _ => [] end)
+  | _ => ([], [])
+  end = ([8], [22; 17; 8]) /\
+  match info id_oracle f with
+  | Ok sm =>
+    match i_next ex_no_dall ro sm f 700 {| i_cis := sm_cis sm; i_queue := []; i_slots := []; i_reccap := 0; i_allocs := [] |} with
+    | Ok (IMsg _, s') => i_allocs s' | _ => [] end
+  | _ => []
+  end = [119; 168].
+Proof. vm_compute. split; reflexivity. Qed.
+(* walk with exactly the fuel load_chunk_i passes *)
+Example ex_walk_hyp :
+  (length (ex_rep 4 ex_message) - N.to_nat 0 < S (length (ex_rep 4 ex_message)))%nat /\
+  is_ok (walk (finalize default_ropts) empty_summ (S (length (ex_rep 4 ex_message))) (ex_rep 4 ex_message) 0 0 []) = true.
+Proof. split; [apply Nat.ltb_lt; vm_compute; reflexivity|vm_compute; reflexivity]. Qed.
+
+(* ----- hostile inputs: errors, not crashes ----- *)
+(* a chunk index whose chunk length is 5 *)
+Definition ex_short_ci_file : bytes := ex_with_summary (magic ++ ex_header) (ex_chan ++ ex_cix 8 5).
+(* footers pointing past the end of the file, and at 2^63 *)
+Definition ex_past_end_file : bytes := magic ++ ex_header ++ ex_footer 1000 ++ magic.
+Definition ex_two63_file : bytes := magic ++ ex_header ++ ex_footer 9223372036854775808 ++ magic.
+
+Example ex_hostile_footer :
+  info id_oracle (ex_mem ex_past_end_file) = Err EBadOffset /\
+  info id_oracle (ex_mem ex_two63_file) = Err EBadOffset /\
+  messages_dispatch id_oracle (ex_mem ex_two63_file) [] = Err EBadOffset /\
+  ex_strip (read_messages id_oracle ex_no_dall (ex_mem ex_two63_file) []) = Ok (None, O, EBadOffset).
+Proof. vm_compute. repeat split; reflexivity. Qed.
+
+Example ex_hostile_chunk_index :
+  messages_dispatch id_oracle (ex_mem ex_short_ci_file) [] = Ok (MIndexed, finalize default_ropts) /\
+  ex_strip (read_messages id_oracle ex_no_dall (ex_mem ex_short_ci_file) []) = Ok (Some MIndexed, O, EOther) /\
+  (* the same file with a source that fails at byte 140 (inside the summary) *)
+  info id_oracle {| fs_data := ex_short_ci_file; fs_fail := Some 140 |} = Err EInjected.
+Proof. vm_compute. repeat split; reflexivity. Qed.
+
+(* offsets at and beyond 2^63; offset + 9 wraps around 2^64 as in Go *)
+Example ex_hostile_offsets :
+  get_attachment (ex_mem (magic ++ ex_header)) 18446744073709551607 = Err EUnexpectedEOF /\
+  get_attachment (ex_mem ex_short_ci_file) 18446744073709551615 = Err EUnexpectedEOF /\
+  get_attachment (ex_mem ex_short_ci_file) 9223372036854775808 = Err EOther /\
+  get_attachment (ex_mem ex_short_ci_file) 1000 = Err EEOF /\
+  get_metadata id_oracle (ex_mem ex_short_ci_file) 9223372036854775808 = Err EOther /\
+  get_metadata id_oracle (ex_mem ex_short_ci_file) 1000 = Err EEOF /\
+  get_metadata id_oracle (ex_mem ex_short_ci_file) 8 = Err EUnexpectedToken.
+Proof. vm_compute. repeat split; reflexivity. Qed.
+
+(* ----- inputs on which the model's fuel runs out (model artefacts, not Go behaviour) ----- *)
+(* 1. Info: a chunk record inside the summary section, a streaming decoder that turns its empty payload into
+      200 records of an unknown opcode.  98 bytes of file, fuel 99. *)
+Definition ex_bomb_file : bytes :=
+  magic ++ frame OpChunk (ex_chunk_body 0 ex_zstd []) ++ ex_footer 8 ++ magic.
+Definition ex_bomb_ds : doracle := fun _ _ _ => (ex_rep 200 (x80 :: u64 0), None).
+
+Example ex_bomb_info :
+  fs_size (ex_mem ex_bomb_file) = 98 /\
+  info ex_bomb_ds (ex_mem ex_bomb_file) = OutOfFuel /\
+  messages_dispatch ex_bomb_ds (ex_mem ex_bomb_file) [] = OutOfFuel /\
+  is_ok (info id_oracle (ex_mem ex_bomb_file)) = true.
+Proof. vm_compute. repeat split; reflexivity. Qed.
+Example ex_bomb_not_oracle9 : ~ oracle9 ex_bomb_ds.
+Proof.
+  intros H. specialize (H [] [] None). apply Nat.leb_le in H. vm_compute in H. discriminate.
+Qed.
+Theorem info_total_full_statement_false : ~ info_total_full_statement.
+Proof.
+  intros H. specialize (H ex_bomb_ds (ex_mem ex_bomb_file)).
+  destruct ex_bomb_info as [_ [E _]]. rewrite E in H. cbn [no_crash] in H. discriminate H.
+Qed.
+
+(* 2. the sequential read: a chunk whose streaming decoder delivers a channel and 400 messages; 107 bytes *)
+Definition ex_sbomb_file : bytes :=
+  magic ++ ex_header ++ frame OpChunk (ex_chunk_body 0 ex_zstd []) ++ ex_footer 0 ++ magic.
+Definition ex_sbomb_ds : doracle := fun _ _ _ => (ex_chan ++ ex_rep 400 ex_message, None).
+Example ex_sbomb_read :
+  read_messages ex_sbomb_ds ex_no_dall (ex_mem ex_sbomb_file) [OUsingIndex false] = OutOfFuel.
+Proof. vm_compute. reflexivity. Qed.
+
+(* 3. the indexed read: a compressed chunk whose decoder delivers 400 messages; 214 bytes *)
+Definition ex_zchunk : bytes := frame OpChunk (ex_chunk_body (31 * 400) ex_zstd []).
+Definition ex_zbomb_file : bytes :=
+  ex_with_summary (magic ++ ex_header ++ ex_zchunk) (ex_chan ++ ex_cix 25 (blen ex_zchunk)).
+Definition ex_zbomb_dall : dalloracle := fun _ _ _ => Some (ex_rep 400 ex_message).
+Example ex_zbomb_read :
+  fs_size (ex_mem ex_zbomb_file) = 214 /\
+  read_messages id_oracle ex_zbomb_dall (ex_mem ex_zbomb_file) [] = OutOfFuel.
+Proof. vm_compute. split; reflexivity. Qed.
+
+(* 4. the indexed read WITHOUT any compression: one chunk of 125 messages, 80 chunk indexes that all point
+      to it: 10000 messages from a file of 9878 bytes *)
+Example ex_dup_read :
+  fs_size (ex_mem (ex_dup_file 125 80)) = 9878 /\
+  read_messages id_oracle ex_no_dall (ex_mem (ex_dup_file 125 80)) [] = OutOfFuel.
+Proof. vm_compute. split; reflexivity. Qed.
+
+Theorem read_messages_total_full_statement_false : ~ read_messages_total_full_statement.
+Proof.
+  intros H. specialize (H id_oracle ex_zbomb_dall (ex_mem ex_zbomb_file) []).
+  destruct ex_zbomb_read as [_ E]. rewrite E in H. cbn [no_crash] in H. discriminate H.
 Qed.
